@@ -1,24 +1,31 @@
 """C10 — type-checker widths are the real widths; accepted code has no width errors.
 
-proof  : Props/C10.v over RTL/Syntax.v (deep embedding of update blocks), RTL/Eval.v (what the simulator
-         computes, built on the Bits specification of C04/C05), RTL/Typing.v (model `tc` of
-         BehavioralRTLIRTypeCheckL1-L3), RTL/TypingSound.v:
-           sentence "an integer literal's inferred width is the least number of bits"   -> C10_lit_width
-           "the width it assigns to each sub-expression equals the simulated width",
-           "accepted code never raises a bitwidth / implicit-truncation error"           -> C10_tc_sound (+ _sub, _stmt)
-           "a runtime width mismatch between explicitly sized operands is rejected"      -> C10_tc_complete_*
-         The soundness theorem is about `tc strict` = the model of the code + the extra checks (S1..S10 in
-         Typing.v) without which the statement is FALSE for the code as it is (counterexamples are machine-checked
-         in TypingSound.v and found on the real code by this harness).
-tie    : T-diff.  Random + directed update blocks over random signal declarations are (a) type-checked by the real
-         BehavioralRTLIRGenPass + BehavioralRTLIRTypeCheckPass (verdict, width/explicit flag of every RTLIR node),
-         (b) simulated by pymtl3 (DefaultPassGroup) on random inputs (exception class, final signal values) and executed
-         once more with every sub-expression wrapped in a probe (runtime width / int value of every sub-expression),
-         (c) printed as Coq terms; Coq computes `check_block impl` and `run_block` and compares (ctx.coq_bad_indices).
-         Independently of the model, the property itself is evaluated on the real observations:
-         accepted & cast-free & shift-amounts-equal  =>  no ValueError;  checker width of a node = probed runtime width.
+proof  : Props/C10.v over RTL/Syntax.v (deep embedding of update blocks: 18 expression constructors, assignment / if / for),
+         RTL/Eval.v (what the simulator computes, built on the Bits specification of C04/C05), RTL/Typing.v (model `tc` of
+         BehavioralRTLIRTypeCheckL1-L3 returning the root type and the (width, explicit) annotation of EVERY RTLIR node),
+         RTL/TypingSound.v, RTL/TypingMono.v.  Sentence by sentence:
+           "an integer literal's inferred width is the least number of bits that holds it"      -> C10_lit_width
+           "the width assigned to each sub-expression equals the width of the simulated value",
+           "simulating an accepted block never raises a bitwidth / implicit-truncation error"   -> C10_tc_sound, C10_tc_sound_sub
+                                                                                                     (all 18 constructors, any nesting),
+                                                                                                     C10_tc_sound_assign (every kind of target)
+           "a runtime width mismatch between explicitly sized operands is rejected"             -> C10_tc_complete_{bin,cmp,ifexp,assign} (for the
+                                                                                                     model of the code), ..._runtime, ..._runtime_impl
+         The soundness theorems are about `tc strict` = the model of the code (`tc impl`) + the extra checks S1..S13 of Typing.v;
+         C10_strict_sub_impl proves strict only removes programs (same widths on every node).  For `tc impl` itself the statement is
+         FALSE: C10_impl_unsound (machine-checked counterexamples) — and this harness finds each of them on the real passes.
+         PARTIAL: whole blocks with if/for are type-checked and executed by the models (and compared with pymtl3 below), but the
+         soundness PROOF stops at single assignments (C10_block_soundness_partial is only stated).
+tie    : T-diff.  Literal blocks, 30 fixed blocks and random update blocks over random signal declarations are (a) type-checked by the
+         real BehavioralRTLIRGenPass + BehavioralRTLIRTypeCheckPass (verdict; width and explicit flag of every RTLIR node, in tree order),
+         (b) simulated by pymtl3 (DefaultPassGroup) on random inputs (exception class / final signal values) and executed once more
+         with every sub-expression wrapped in a probe (runtime nbits / int value of every evaluated sub-expression),
+         (c) printed as Coq terms: Coq computes `check_block impl` and `run_block` and compares verdict, per-node annotations, outcome,
+         final values and per-sub-expression runtime shapes (coq_multi = ctx.coq_bad_indices for several checks in one coqc run).
+         Independently of the model, the property is evaluated on the real observations: accepted & cast-free & shift amounts as wide as
+         the shifted value => no ValueError;  checker width of a probed node == runtime nbits (ints: value fits).  Each failure is
+         attributed to the extra check of Typing.v that would have rejected the block (key C10:S<k>:missing-check).
 """
-import ast as _ast
 from common import *
 from sched_common import load_source
 
@@ -791,7 +798,7 @@ def check_cases(ctx, cases, section, lit_attr=None):
       ctx.note(f'{section}: block outside the front end ({c.tc[0]}): {c.tc[1][:160]}')
   if not live: return
   terms = [case_term(c) for c in live]
-  RULES = [1, 2, 3, 4, 5, 6, 7, 10, 13, 11]
+  RULES = [1, 2, 3, 4, 5, 6, 7, 13, 10, 11]
   res = coq_multi(ctx, section, terms, ['ok_verdict', 'ok_runtime', 'ok_noerror', 'ok_strict', 'ok_mono', 'ok_strict_acc'] + [f'nr{k}' for k in RULES])
   rejecting = {i: [k for k in RULES if i in set(res[f'nr{k}'])] for i in range(len(live))}
   def cause_of(i):
@@ -991,7 +998,9 @@ def main(ctx):
   ctx.assumptions += [
     'language modelled: signals of Bits / nested bitstruct type, int literals, BitsN(k), closure ints, + - * & | ^ << >>, comparisons, ~, slices (constant or x:x+k), bit index, concat, zext/sext/trunc (int width form), reduce_*, BitsN(e), IfExp, temporaries, constant-bounded for loops, @= / <<= (whole vector signals), if/else. Not modelled: / % ** unary -, signal lists / arrays, struct instantiation, struct<->vector assignment, interfaces, sub-components, Bits-valued free variables, negative literals.',
     'generated blocks read only InPorts/temporaries and write only OutPorts/Wires (no aliasing between a temporary and a signal written later)',
-    'tc_sound is proved for `tc strict` = the model of the code plus checks S1..S10 (Typing.v); for the code as it is the statement is false (machine-checked counterexamples; the harness finds them on the real code)',
+    'tc_sound is proved for `tc strict` = the model of the code plus checks S1..S13 (Typing.v); tc_mono proves strict is a restriction of impl; for the code as it is the statement is false (machine-checked counterexamples; the harness finds them on the real code)',
+    'soundness is proved for expressions, sub-expressions and single assignment statements under any well-typed environment; not for whole blocks with if/for (those are only compared with the real simulator)',
+    'a probe run executes the block body as plain python on the simulated component (same statements, same Bits objects as the scheduled update block)',
     'a checker crash (non-PyMTLTypeError exception) counts as rejection',
   ]
   ctx.build_props(extra_models=['theories/RTL/Syntax.vo', 'theories/RTL/Eval.vo', 'theories/RTL/Typing.vo'])
